@@ -110,6 +110,12 @@ func runStrings() {
 				mode++
 			}
 		}
+		// contents that begin like something else: byte-order marks, a format byte, a length prefix
+		for pi, pre := range [][]byte{{0xFF, 0xFE}, {0xFE, 0xFF}, {0xEF, 0xBB, 0xBF}, {0xFF, 0xFE, 0x41, 0x01}, {0x04}, {0x02, 0x41}, {0x05, 0x01}, {0xFF}, {0xFE}, {0xFF, 0xFF}} {
+			for _, tail := range []string{"", "A", "name.ext", `\\server\share`} {
+				one(append(append([]byte(nil), pre...), tail...), fmt.Sprintf("prefix#%d+%d", pi, len(tail)), (pi+len(tail))%3)
+			}
+		}
 		rng := r.Rand(name)
 		for t := 0; t < r.Pick(1500, 40000); t++ {
 			n := randLen(rng)
@@ -479,9 +485,24 @@ func runDirectoryInformation() {
 	widths := append(append([]int(nil), rkWidths...), 1, 4, 4, 2, 4)
 	rng := r.Rand("DIRINFO")
 	vs := vectors(widths, rng, r.Pick(2500, 50000))
+	// every attribute byte (volume label 0x08, directory 0x10, ... and their combinations) with
+	// names of the 8.3 shapes: base and extension, no dot, a dot in ninth place, a leading dot,
+	// eleven characters without a dot (a volume label), two dots
+	names83 := []string{"AUTOEXEC.BAT", "NAME.EXT", "A.B", "NODOT", "12345678.123", "ABCDEFGH.", ".HIDDEN", "LABEL123.456", "VOLUMELABEL", "A..B", "ABCDEFGHIJK", "ABCDEFGH.IJK"}
+	forced := map[int]string{}
+	for attr := 0; attr < 256; attr++ {
+		for ni, nm := range names83 {
+			v := append([]uint64(nil), vs[(attr*len(names83)+ni)%len(vs)]...)
+			v[21] = uint64(attr)
+			forced[len(vs)] = nm
+			vs = append(vs, v)
+		}
+	}
 	for i, v := range vs {
 		var name string
-		if i < 4*len(fixedNames) {
+		if nm, ok := forced[i]; ok {
+			name = nm
+		} else if i < 4*len(fixedNames) {
 			name = fixedNames[i%len(fixedNames)]
 		} else {
 			name = string(nulFree(rng, rng.IntN(13)))
